@@ -7,5 +7,5 @@ CONSTANTS Acct <- AcctU
  WithSeal = TRUE
  FreeVals = FALSE
  Dv <- NoDev
-INVARIANTS UndoMatchesSaved NoPanic RevsOK DiscardAllIsBase RedoEqualsExec
+INVARIANTS UndoMatchesSaved NoPanic RevsOK DiscardAllIsBase RedoEqualsExec NoTraceOfReverted
 CHECK_DEADLOCK FALSE
